@@ -112,6 +112,14 @@ class ListBox(typing.List[T]):
         return 'ListBox(%s)' % list.__repr__(self)
 
 
+class Shelf(typing.Dict[T, ListBox[int]]):
+    """A generic whose base mentions *another* subscription of a generic over the same TypeVar: in Shelf[str] the key hint
+    is str while the values stay ListBox[int] (the inner T is bound by the inner subscription, not by the outer one)."""
+
+    def __repr__(self):
+        return 'Shelf(%s)' % dict.__repr__(self)
+
+
 class Pair(Generic[T, S]):
     def __init__(self, a=None, b=None):
         self.a, self.b = a, b
@@ -157,14 +165,14 @@ CLASSES = {
     'complex': complex, 'list': list, 'dict': dict, 'tuple': tuple, 'set': set,
     'frozenset': frozenset, 'object': object, 'type': type,
     'A': A, 'B': B, 'C': C, 'NoWeak': NoWeak, 'Named': Named,
-    'Box': Box, 'ListBox': ListBox, 'Pair': Pair,
+    'Box': Box, 'ListBox': ListBox, 'Pair': Pair, 'Shelf': Shelf,
 }
 PROTOS = {'SupportsLenP': SupportsLenP, 'HasNameP': HasNameP,
           'Sized': cabc.Sized, 'Hashable': cabc.Hashable,
           'SupportsInt': typing.SupportsInt, 'SupportsAbs': typing.SupportsAbs}
 TYPEVARS = {'T': T, 'TB': TB, 'TI': TI, 'TC': TC, 'TS': TS}
 NEWTYPES = {'UserId': UserId, 'Label': Label}
-GENERICS = {'Box': Box, 'ListBox': ListBox, 'Pair': Pair}
+GENERICS = {'Box': Box, 'ListBox': ListBox, 'Pair': Pair, 'Shelf': Shelf}
 
 # Validator predicates: total functions. Named functions, not lambdas: beartype
 # reprs a lambda validator by re-parsing its source file (~80 ms per hint).
@@ -516,6 +524,8 @@ def build_obj(o, env=None):
         return (x for x in items)
     if k == 'box':
         return Box(*[build_obj(i, env) for i in o['i']])
+    if k == 'shelf':
+        return Shelf((build_obj(a, env), build_obj(b, env)) for a, b in o['i'])
     if k == 'listbox':
         return ListBox(build_obj(i, env) for i in o['i'])
     if k == 'pair':
@@ -646,6 +656,9 @@ def conforms(h, x, tower=False, env=None, _seen=None):
             return False
         if g is ListBox:
             return all(conforms(h['a'][0], i, tower, env) for i in x)
+        if g is Shelf:
+            return all(conforms(h['a'][0], kk, tower, env) and isinstance(vv, ListBox) and all(isinstance(i, int) for i in vv)
+                       for kk, vv in x.items())
         return True
     if k == 'ref':
         return isinstance(x, env.cls(h['n']))
@@ -779,6 +792,12 @@ def must_reject(h, x, tower=False, env=None):
             return True
         if g is ListBox:
             return len(x) > 0 and all(must_reject(h['a'][0], i, tower, env) for i in x)
+        if g is Shelf:
+            items = list(x.items())
+            if not items:
+                return False
+            return (all(must_reject(h['a'][0], kk, tower, env) for kk, _ in items)
+                    or all((not isinstance(vv, ListBox)) or (len(vv) > 0 and not any(isinstance(i, int) for i in vv)) for _, vv in items))
         return False
     if k == 'ref':
         return not isinstance(x, env.cls(h['n']))
@@ -898,6 +917,21 @@ def gen_hint(rng, depth=3, hashable=False, families=None, leafy=0.3):
         return _gen_leaf(rng, hashable)
     if f == 'union':
         n = rng.randint(2, 4)
+        if not hashable and (families is None or 'gen' in families) and rng.random() < 0.15:
+            # two subscriptions of one user generic (or of one container family) as direct members: they reduce to the same
+            # origin and differ only in their arguments
+            g = rng.choice(['Box', 'ListBox', 'ListBox', 'list', 'dict'])
+            leaves = rng.sample(['int', 'str', 'bytes', 'A', 'float'], 2)
+            if g in ('Box', 'ListBox'):
+                members = [{'k': 'gen', 'n': g, 'a': [{'k': 'cls', 'n': l}]} for l in leaves]
+            elif g == 'list':
+                members = [{'k': 'seq', 'o': 'list', 'a': [{'k': 'cls', 'n': l}]} for l in leaves]
+            else:
+                members = [{'k': 'map', 'o': 'dict', 'a': [{'k': 'cls', 'n': 'str'}, {'k': 'cls', 'n': l}]} for l in leaves]
+            if rng.random() < 0.4:
+                members.append(gen_hint(rng, d, hashable, families))
+            rng.shuffle(members)
+            return {'k': 'union', 'a': members}
         return {'k': 'union', 'a': [gen_hint(rng, d, hashable, families) for _ in range(n)]}
     if f == 'pipe':
         n = rng.randint(2, 3)
@@ -977,7 +1011,9 @@ def gen_hint(rng, depth=3, hashable=False, families=None, leafy=0.3):
     if f == 'gen':
         if hashable:
             return _gen_leaf(rng, hashable)
-        n = rng.choice(['Box', 'ListBox', 'Pair'])
+        n = rng.choice(['Box', 'ListBox', 'Pair', 'Shelf'])
+        if n == 'Shelf':
+            return {'k': 'gen', 'n': n, 'a': [{'k': 'cls', 'n': rng.choice(['str', 'bytes', 'int', 'A'])}]}
         if n == 'Pair':
             return {'k': 'gen', 'n': n, 'a': [gen_hint(rng, d, False, families), gen_hint(rng, d, False, families)]}
         return {'k': 'gen', 'n': n, 'a': [gen_hint(rng, d, False, families)]}
@@ -1192,6 +1228,10 @@ def gen_conforming(rng, h, maxlen=4, env=None, depth=0):
             return {'o': 'box', 'i': _gen_items(rng, h['a'][0], n, maxlen, env, depth)}
         if h['n'] == 'ListBox':
             return {'o': 'listbox', 'i': _gen_items(rng, h['a'][0], n, maxlen, env, depth)}
+        if h['n'] == 'Shelf':
+            ks = [kk for kk in _gen_items(rng, h['a'][0], n, maxlen, env, depth, hashable=True) if _hashable(kk, env)]
+            return {'o': 'shelf', 'i': _dedupe_items([[kk, {'o': 'listbox', 'i': [{'o': 'int', 'v': j} for j in range(rng.randint(0, 3))]}]
+                                                      for kk in ks])}
         return {'o': 'pair', 'i': [gen_conforming(rng, h['a'][0], maxlen, env, depth + 1),
                                    gen_conforming(rng, h['a'][1], maxlen, env, depth + 1)]}
     if k == 'ref':
@@ -1268,6 +1308,8 @@ def gen_violating(rng, h, maxlen=4, tower=False, env=None):
         choices += ['all_items', 'all_items']
     if k == 'map':
         choices += ['all_keys', 'all_values', 'all_values']
+    if k == 'gen' and h['n'] == 'Shelf':
+        choices += ['shelf_values', 'shelf_values', 'shelf_keys']
     if k == 'counter':
         choices += ['all_keys']
     if k == 'ann':
@@ -1294,6 +1336,26 @@ def _gen_violating_at(rng, h, where, maxlen, tower, env):
     k = h['k']
     if where == 'top':
         return gen_violating_leaf(rng, h, tower, env)
+    if where in ('shelf_values', 'shelf_keys'):
+        n = rng.randint(1, maxlen)
+        items = []
+        for j in range(n):
+            if where == 'shelf_values':
+                # every value is a ListBox whose items all violate int - of the class the *outer* subscription names, when possible
+                kk = gen_conforming(rng, h['a'][0], 2, env)
+                bad = [gen_conforming(rng, h['a'][0], 1, env) if not isinstance(build_obj(gen_conforming(rng, h['a'][0], 1, env), env), int)
+                       else {'o': 'str', 'v': 'x%d' % j} for _ in range(rng.randint(1, 3))]
+                bad = [b for b in bad if not isinstance(build_obj(b, env), int)] or [{'o': 'str', 'v': 'x'}]
+                vv = {'o': 'listbox', 'i': bad}
+            else:
+                kk = gen_violating(rng, h['a'][0], 1, tower, env)[0]
+                vv = {'o': 'listbox', 'i': [{'o': 'int', 'v': j}]}
+            if _hashable(kk, env):
+                items.append([kk, vv])
+        items = _dedupe_items(items)
+        if not items:
+            raise CannotGenerate(h)
+        return {'o': 'shelf', 'i': items}
     if where == 'tuple_len':
         n = len(h['a'])
         m = rng.choice([x for x in (n - 1, n + 1, 0) if x >= 0 and x != n])
